@@ -201,6 +201,7 @@ class DbGen:
         self.cols = cols              # table -> [(name, type, notnull)]
         self.ascii = ascii_only
         self.n = 0
+        self.modes = []               # labelling modes used for the job trees of a 2.3 database
 
     def h(self):
         self.n += 1
@@ -293,20 +294,33 @@ class DbGen:
         eid_col = self.has("job", "execution_id")
         eid_nn = eid_col and self.notnull("job", "execution_id")
         jn = 0
-        for tree in range(r.randint(1, 3)):
-            with_exec = eid_nn or r.random() < 0.6
+        # 2.3 (execution_id exists, nullable): a client may have labelled any subset of the jobs of an
+        # execution -- always with the execution of the root, the only value redun records
+        partial = eid_col and not eid_nn
+        for tree in range(r.randint(2, 4) if partial else r.randint(1, 3)):
+            with_exec = eid_nn or r.random() < (0.75 if partial else 0.6)
             ex = f"exec-{self.h()[:8]}" if with_exec else None
-            set_eid = eid_nn or (eid_col and with_exec and r.random() < 0.7)
+            if eid_nn:
+                mode = "all"
+            elif partial and with_exec:
+                mode = r.choice(["all", "none", "random", "random", "root-only", "children-only", "even-levels", "odd-levels"])
+            else:
+                mode = "none"
             root = f"job-{self.h()[:8]}"
-            nodes = [(root, None)]
-            for k in range(r.randint(0, 4)):
-                nodes.append((f"job-{self.h()[:8]}", r.choice(nodes)[0]))
-            for jid, parent in nodes:
+            nodes = [(root, None, 0)]
+            for k in range(r.randint(2, 6) if partial else r.randint(0, 4)):
+                pj = r.choice(nodes)
+                nodes.append((f"job-{self.h()[:8]}", pj[0], pj[2] + 1))
+            if partial:
+                self.modes.append(mode)
+            for jid, parent, depth in nodes:
                 jn += 1
                 row = {"id": jid, "start_time": self.ts(), "end_time": r.choice([None, self.ts()]), "task_hash": r.choice(tasks),
                        "cached": r.choice([0, 1]), "call_hash": r.choice([None] + cns), "parent_id": parent}
                 if eid_col:
-                    row["execution_id"] = ex if set_eid else None
+                    lab = {"all": True, "none": False, "random": r.random() < 0.5, "root-only": depth == 0,
+                           "children-only": depth > 0, "even-levels": depth % 2 == 0, "odd-levels": depth % 2 == 1}[mode]
+                    row["execution_id"] = ex if lab else None
                 T["job"].append(row)
             if with_exec:
                 row = {"id": ex, "args": json.dumps(["run", self.text()]) if not self.ascii else '["run", "wf.py"]', "job_id": root}
@@ -594,7 +608,7 @@ class Check(PropertyCheck):
     module = "Props.C36"
     theorems = ["C36_any_known_ops_preserve", "C36_upgrade_keeps_rows", "C36_other_columns_equal_partial", "C36_refuted",
                 "C36_holds_fixed", "C36_execution_id_backfilled", "C36_upgraded_is_compatible",
-                "C36_upgraded_schema_is_latest", "C36_upgrade_failure_modes_partial", "C36_nonvacuous"]
+                "C36_upgraded_schema_is_latest", "C36_upgrade_failure_modes_partial", "C36_nonvacuous", "C36_partial_labels_example"]
     extra_modules = ["Model.MigrateChain"]
     allowed_axioms = []
     section_premises = []
@@ -650,6 +664,8 @@ class Check(PropertyCheck):
         if i > 0:
             g = DbGen(self.rng, {t: v["cols"] for t, v in base["tables"].items()}, ascii_only)
             rows = g.make(bad)
+            for m in g.modes:
+                self.stat("execution_id_labelling_at_2.3", m)
             insert_rows(p, rows)
         before = dump(p)
         exc = real_upgrade(p, tz)
@@ -658,6 +674,10 @@ class Check(PropertyCheck):
 
     def crossed(self, i):
         return set(self.revisions[i:])
+
+    def i23(self):
+        """Version index of 2.3 (d4af139b6f53: job.execution_id exists and is nullable)."""
+        return self.revisions.index("d4af139b6f53") + 1 if "d4af139b6f53" in self.revisions else -1
 
     # ---------------------------------------------------------------- correspondence
     def correspond(self):
@@ -681,7 +701,7 @@ class Check(PropertyCheck):
                 self.count(("schema", n))
             # (2) populated upgrades
             for i in range(nver + 1):
-                for k in range(per if i else 1):
+                for k in range((per * 2 if i == self.i23() else per) if i else 1):
                     tz, off = self.rng.choice(FIXED_ZONES)
                     bad = None
                     if i and k == per - 1:
@@ -808,10 +828,12 @@ class Check(PropertyCheck):
                         self.add_findings(self.check_case(c), c)
             per = 5 if self.tier == "quick" else 60
             for i in range(1, nver + 1):
-                for k in range(per):
+                # 2.3 is the only start with a nullable, partly filled execution_id: more populations there
+                for k in range(per * 3 if i == self.i23() else per):
                     tz = self.rng.choice([z for z, _ in FIXED_ZONES] + DST_ZONES)
                     c = self.make_case(tpl, i, tz, ascii_only=False, tag="o")
                     n += 1
+                    self.count(("oracle", i, tz, json.dumps(c["rows"], sort_keys=True, default=repr)), n=0)
                     self.stat("oracle_zone", tz)
                     self.add_findings(self.check_case(c), c)
                     os.unlink(c["path"])
